@@ -106,3 +106,25 @@ func H_C02_refs() {
 	exp.Ord = o
 	checkWellFormed(bs, exp)
 }
+
+// H_C02_many_classes: every instance names the definition of its own class, emitted earlier in the stream, also
+// for definition indexes 15, 16, 17 (short form / 'O' form boundary).
+func H_C02_many_classes() {
+	n := 1 + vChoice("classes", 19)
+	again := []int{0, 2, 15, 16, 17}[vChoice("again", 5)]
+	vAssume(again < n)
+	x := vInt32("x")
+	v := zManyClasses(n, x, again)
+	_, nameMap := vExtract(v)
+	bs, err := ToBytes(v, nameMap)
+	vAssert("encode-noerr", err == nil)
+	exp := &AV{Kind: 'V', Ord: 0}
+	for i, e := range v {
+		ci := i
+		if i == n {
+			ci = again
+		}
+		exp.Items = append(exp.Items, &AV{Kind: 'O', Type: zClassName(ci), Fields: []string{"v"}, Items: []*AV{avInt(zClassV(e))}, Ord: i + 1})
+	}
+	checkWellFormed(bs, exp)
+}
